@@ -82,7 +82,7 @@ func (g G) planC09() *Plan {
 		world: worldOpts{maxSPs: 3, maxUsers: 2, maxReplicas: 2, hardPct: 20, hardURLPct: 20, acsVariety: true, sloVariety: true, signReqVariety: true, parkVariety: true, noCertPct: 20,
 			issuerVariety: true, endpointVariety: true, metaVariety: true, customAttrs: true},
 		wSSO: 25, wSLO: 18, wAttrQ: 22, wCallback: 8, wMeta: 4, wCert: 2, wReady: 2, wHealthz: 1, wRaw: 12,
-		wResume: 25, wFinish: 12, wComplete: 3, wRereg: 2, wDelSP: 1, wRotate: 1, wUnhealthy: 1,
+		wResume: 25, wFinish: 12, wComplete: 3, wRereg: 2, wDelSP: 1, wRotate: 1, wUnhealthy: 1, wCancel: 4, wAdvance: 2, deadlinePct: 6,
 		devPct: 60, tamperPct: 55, timePct: 5, faultPcts: []int{0, 10, 30}, bodyFaultPct: 12, writeFaultPct: 5, rogueSPPct: 8, hostVariety: true, oddHostPct: 10,
 		minSteps: 3, maxSteps: 30, maxPre: 2, hardPre: true, preBindings: []string{BindPost, BindRedirect, BindArtifact, "", "urn:x"}, autoFinishPct: 50}
 	p := g.planMix("C09", o)
